@@ -151,10 +151,22 @@ class CmdScenario(WorldScenario):
                 w.flag("C16", "spec_not_recorded_by_touch", f"touch {patterns}: current spec of {missing} not recorded")
         after = w.snapshot()
         cone_files = {o for n in cone for o in w.model.targets[n].outputs}
+        # an output that is a symbolic link stands for the file it points to
+        for o in sorted(cone_files):
+            for snap in (before, after):
+                v = snap.get(o)
+                if v is not None and v[0] == "link":
+                    dst = v[1].replace("$BASE", w.base)
+                    if dst.startswith(w.proj + "/"):
+                        cone_files = cone_files | {dst[len(w.proj) + 1:]}
         w.probe("touch_commands")
         for rel in sorted(set(before) | set(after)):
             a, b = before.get(rel), after.get(rel)
             if rel.startswith(".gwf/"):
+                continue
+            if a is not None and b is not None and a[0] == "link" and b[0] == "link":
+                if a != b:
+                    w.flag("C16", "touched_outside_cone", f"{rel}: link changed")
                 continue
             if rel in cone_files:
                 if b is None:
@@ -166,7 +178,7 @@ class CmdScenario(WorldScenario):
             elif a != b:
                 w.flag("C16", "touched_outside_cone", f"{rel}: {'created' if a is None else 'removed' if b is None else 'modified'}")
         for o in cone_files:
-            if o not in after:
+            if o not in after or not os.path.exists(w.path(o)):
                 w.flag("C16", "output_missing_after_touch", o)
         if w.pending_violation:
             return res
@@ -216,10 +228,13 @@ class CmdScenario(WorldScenario):
             eps = set(w.model.endpoints())
             names = [n for n in names if n not in eps]
         expect_removed = set()
+        may_remove = set()  # a dangling link is a declared output that "does not exist": removing it is allowed
         for n in names:
             t = w.model.targets[n]
             prot = {p for p, s in t.protect}
             for o in t.outputs:
+                if o not in prot and os.path.lexists(w.path(o)):
+                    may_remove.add(o)
                 if o not in prot and os.path.exists(w.path(o)):
                     expect_removed.add(o)
                 if o in prot:
@@ -248,7 +263,7 @@ class CmdScenario(WorldScenario):
         if w.hashing:
             for n in names:
                 w.m_hash.pop(n, None)
-        extra = removed - expect_removed
+        extra = removed - expect_removed - may_remove
         missing = expect_removed - removed - failed
         if extra:
             kinds = []
